@@ -206,6 +206,7 @@ func (c *Collection) postEvent(event *sgbucket.FeedEvent) {
 			if feed.args.KeysOnly {
 				var eventNoValue sgbucket.FeedEvent = *event // copies the struct
 				eventNoValue.Value = nil
+				eventNoValue.DataType &^= sgbucket.FeedDataTypeXattr // no value, so no xattrs framed into it (as in a KeysOnly backfill)
 				feed.events.push(&eventNoValue)
 			} else {
 				feed.events.push(event)
